@@ -50,7 +50,7 @@ theorem wakeStep_sim_try (s : St) (hp : s.phase = .tryBlock) :
   cases hm : s.mustCancel
   · cases ha : s.armed with
     | none => simp [hp]
-    | some a => cases a <;> simp
+    | some a => cases a <;> simp <;> split <;> simp
   · simp
 
 theorem wakeStep_stopped (s : St) (w : Wake) (h : Stopped s) : Stopped (wakeStep s w).1 := by
@@ -102,8 +102,25 @@ theorem step_stopped (s : St) (op : Op) (h : Stopped s) : Stopped (step s op).1 
       have hph : s.phase = .notStarted ∨ s.phase = .tryBlock := by
         cases hp : s.phase <;> simp_all [Stopped]
       rcases hph with hp | hp
-      · cases i <;> simp [step, hp, hs, firstOf] at hq ⊢
+      · cases i with
+        | some id => simp [step, hp, hs, firstOf] at hq ⊢
+        | none => cases hf : s.earlyFail <;> simp [step, hp, hs, hf, firstOf] at hq ⊢
       · simp [step, hp] at hq
+  | handlerErr id f =>
+    intro hq
+    rw [step_error]
+    cases hs : s.error with
+    | some e => simp [firstOf]
+    | none =>
+      have hph : s.phase = .notStarted ∨ s.phase = .tryBlock := by
+        cases hp : s.phase <;> simp_all [Stopped]
+      rcases hph with hp | hp <;> cases hf : (Fault.inHandler f).fatal <;>
+        simp [step, hp, hs, hf, St.ready, St.abort] at hq ⊢
+  | earlyInitFail id =>
+    simp only [step]
+    split
+    · simpa [Stopped] using h
+    · exact h
   | supTrigger i id => cases id <;> simpa [step, Stopped] using h
   | nestedUnknown c =>
     simp only [step]
@@ -180,9 +197,39 @@ theorem harmless_outcomes_reported_only (s : St) :
     (step s .unknownEvt).1 = s ∧ (step s .unknownEvt).2.dels = [] := by
   simp [step]
 
+/-- **classification, over the exception families**: `SBlock.event` calls abort() -- the fault is fatal -- unless the
+    exception says "unknown event type" (EdzedUnknownEvent) or comes from the call itself (wrong parameters:
+    a traceback of one level); total in the family and the depth -/
+theorem classification_total (x : Family × Bool) :
+    fatalSeen x = true ↔ ¬ (x.1 = .unknownEvent ∨ x.2 = false) := by
+  obtain ⟨f, d⟩ := x
+  cases f <;> cases d <;> simp [fatalSeen]
+
+/-- which faults are errors *inside* a handler according to the property text.  Reading chosen: a handler that
+    raises EdzedUnknownEvent ITSELF declares the event unknown (that is how `_event()` reports unknown types);
+    an EdzedUnknownEvent that comes from ANOTHER event sent by the handler is an error inside the handler -/
+def Fault.documentedFatal : Fault → Bool
+  | .inHandler f => f != .unknownEvent
+  | .wrongParams => false
+  | .unknownType => false
+  | .nested => true
+
+/- Full statement (NOT provable, the code violates it for `nested`): ∀ flt, flt.fatal = flt.documentedFatal.
+   See `nested_unknown_event_not_fatal` and known_findings.json. -/
+/-- every exception family raised inside a handler (generic, EdzedCircuitError, EdzedInvalidState, TypeError) is
+    fatal, wrong parameters and unknown types are not: the code's classification is the documented one -/
+theorem classification_by_fault_partial (flt : Fault) (h : flt ≠ .nested) :
+    flt.fatal = flt.documentedFatal := by
+  cases flt with
+  | inHandler f => cases f <;> rfl
+  | wrongParams => rfl
+  | unknownType => rfl
+  | nested => exact absurd rfl h
+
 /-- which external-event operations are errors *inside* a handler according to the property text -/
 def documentedFatal : Op → Bool
-  | .handlerErr _ | .ctrlAbort _ | .ctrlShutdown | .nestedUnknown _ => true
+  | .handlerErr _ f => (Fault.inHandler f).documentedFatal
+  | .ctrlAbort _ | .ctrlShutdown | .nestedUnknown _ => true
   | _ => false
 
 /- Full statement (NOT provable, the code violates it for `nestedUnknown`):
@@ -191,10 +238,15 @@ def documentedFatal : Op → Bool
    or an FSM entry action sending to its own block) passes through `except EdzedUnknownEvent: raise`
    without abort(); see known_findings.json.  Proved: the statement for every other external event. -/
 theorem classification_partial (s : St) (h : s.ready = true) (op : Op)
-    (hext : op = .paramErr ∨ op = .unknownEvt ∨ (∃ i, op = .handlerErr i) ∨ (∃ i, op = .ctrlAbort i) ∨
+    (hext : op = .paramErr ∨ op = .unknownEvt ∨ (∃ i f, op = .handlerErr i f) ∨ (∃ i, op = .ctrlAbort i) ∨
             op = .ctrlShutdown) :
     ((step s op).2.dels ≠ [] ↔ documentedFatal op = true) := by
-  rcases hext with rfl | rfl | ⟨i, rfl⟩ | ⟨i, rfl⟩ | rfl <;> simp [step, h, documentedFatal]
+  rcases hext with rfl | rfl | ⟨i, f, rfl⟩ | ⟨i, rfl⟩ | rfl
+  · simp [step, h, documentedFatal]
+  · simp [step, h, documentedFatal]
+  · cases f <;> simp [step, h, documentedFatal, Fault.documentedFatal, Fault.fatal, fatalSeen, Fault.seen]
+  · simp [step, h, documentedFatal]
+  · simp [step, h, documentedFatal]
 
 /-- the counter-example that blocks the full statement (replayed on the implementation by the check) -/
 theorem nested_unknown_event_not_fatal :
@@ -202,15 +254,37 @@ theorem nested_unknown_event_not_fatal :
     (step { phase := .tryBlock } (.nestedUnknown c)).2.dels = [] ∧
     (step { phase := .tryBlock } (.nestedUnknown c)).1.ready = true := by decide
 
-/-- an exception inside an event handler terminates the simulation even though the caller gets
-    (and may swallow) the exception: the register is written before the exception reaches the caller -/
-theorem handler_error_is_fatal (s : St) (h : s.ready = true) (id : Nat) :
-    (step s (.handlerErr id)).1.error = some (.wrapped id) ∧
-    (step s (.handlerErr id)).2.reply = .raised (.exc id) ∧
-    (step s (.handlerErr id)).1.ready = false := by
+/-- an exception of ANY family but EdzedUnknownEvent inside an event handler terminates the simulation even though
+    the caller gets (and may swallow) the exception: the register is written before the exception reaches the caller -/
+theorem handler_error_is_fatal (s : St) (h : s.ready = true) (id : Nat) (f : Family) (hf : f ≠ .unknownEvent) :
+    (step s (.handlerErr id f)).1.error = some (.wrapped id) ∧
+    (step s (.handlerErr id f)).2.reply = .raised (.exc id) ∧
+    (step s (.handlerErr id f)).1.ready = false := by
   simp [St.ready] at h
   obtain ⟨hp, he⟩ := h
-  simp [step, hp, abort_error, he, firstOf, St.ready]
+  cases f <;> simp_all [step, abort_error, firstOf, St.ready, Fault.fatal, fatalSeen, Fault.seen]
+
+/-- … inside the simulation task as well (an `on_output` event of a block evaluated by the simulator): the wrapped
+    error is recorded first, then the exception ends the task -/
+theorem handler_error_in_simtask_is_fatal (s : St) (hp : s.phase = .tryBlock) (hc : s.mustCancel = false)
+    (he : s.error = none) (id : Nat) (f : Family) (ha : s.armed = some (.calcHandler id f)) :
+    (wakeStep s .sim).1.error = some (if f = .unknownEvent then .exc id else .wrapped id) ∧
+    (wakeStep s .sim).1.phase = .sleep0 := by
+  cases f <;> simp [wakeStep, hp, hc, ha, caught_error, abort_error, he, firstOf, Fault.fatal, fatalSeen, Fault.seen]
+
+/-- a synchronous initialisation routine that fails EARLY (reached through an event during the start-up, the
+    sender swallows the exception) still makes the start fail: the failed step is not attempted again, the block
+    is found uninitialised, and that error is never replaced -/
+theorem early_init_failure_is_fatal (s : St) (hp : s.phase = .notStarted) (he : s.error = none) (id : Nat)
+    (ops : List Op) :
+    let s1 := (step s (.earlyInitFail id)).1
+    let s2 := (step s1 (.start none)).1
+    (step s (.earlyInitFail id)).2.reply = .raised (.exc id) ∧ s1.error = none ∧
+    s2.phase = .sleep0 ∧ s2.error = some .notInit ∧ (final s2 ops).error = some .notInit := by
+  have h2 : (step (step s (.earlyInitFail id)).1 (.start none)).1.error = some .notInit := by
+    rw [step_error]; simp [step, hp, he, firstOf]
+  refine ⟨by simp [step, hp, he], by simp [step, hp, he], ?_, h2, error_never_replaced _ _ h2 ops⟩
+  simp [step, hp, he]
 
 /-- an output calculation that raises ends the simulation with that exception -/
 theorem calc_error_is_fatal (s : St) (hp : s.phase = .tryBlock) (hc : s.mustCancel = false)
@@ -234,9 +308,9 @@ theorem control_events (s : St) (h : s.ready = true) (id : Nat) :
 /-- non-vacuity: a handler error racing with abort() and a shutdown in the same instant —
     the first one delivered is reported by everything -/
 example :
-    let s := final {} [.start none, .handlerErr 1, .abortCall (.exc 2), .shutdownTask, .tick, .tick, .tick]
+    let s := final {} [.start none, .handlerErr 1 .circuitError, .abortCall (.exc 2), .shutdownTask, .tick, .tick, .tick]
     s.error = some (.wrapped 1) ∧ s.phase = .done ∧ shutdownRaises s = some (.wrapped 1) ∧
-    deliveries {} [.start none, .handlerErr 1, .abortCall (.exc 2), .shutdownTask, .tick, .tick, .tick]
+    deliveries {} [.start none, .handlerErr 1 .circuitError, .abortCall (.exc 2), .shutdownTask, .tick, .tick, .tick]
       = [.wrapped 1, .exc 2, .cancelled 0, .cancelled 1] := by decide
 
 example :
@@ -296,17 +370,20 @@ theorem translated_errreg_is_ready_follows_error (s : St) :
   unfold Gen.Tr.isReady St.ready
   cases s.phase <;> cases s.error <;> simp
 
-/-- `_check_started()`: nothing when the simulation task exists; otherwise one yield, and EdzedInvalidState
-    if it still does not exist afterwards -/
+/-- `_check_started()`: nothing when the simulation task exists; otherwise one yield -- at which the caller may
+    be cancelled (CancelledError propagates) --, and EdzedInvalidState if the task still does not exist afterwards -/
 theorem translated_errreg_check_started_is_model (env : Nat → St → St) (s : TS) :
     (callFn (TrE.checkStarted (csPrims env)) : M TS PyExc Unit Unit) s =
       if s.st.phase != .notStarted then (s, .next ())
+      else if s.cancelAt s.log.length then (s.await env .yield, .raise callerCancelled)
       else if (s.await env .yield).st.phase != .notStarted then (s.await env .yield, .next ())
       else (s.await env .yield, .raise .invalidState) := by
   unfold TrE.checkStarted callFn
   by_cases h : s.st.phase = .notStarted
-  · by_cases h2 : (s.await env .yield).st.phase = .notStarted <;>
-      simp [h, h2, bind_apply, get_apply, pure_apply, raise_apply, ret_apply]
+  · cases hx : s.cancelAt s.log.length
+    · by_cases h2 : (s.await env .yield).st.phase = .notStarted <;>
+        simp [h, h2, hx, awaitM, bind_apply, get_apply, pure_apply, raise_apply, ret_apply]
+    · simp [h, hx, awaitM, bind_apply, get_apply]
   · simp [h, bind_apply, get_apply, pure_apply, ret_apply]
 
 theorem translated_errreg_check_started_passes (env : Nat → St → St) (s : TS) (h : s.st.phase ≠ .notStarted) :
@@ -314,15 +391,17 @@ theorem translated_errreg_check_started_passes (env : Nat → St → St) (s : TS
   rw [translated_errreg_check_started_is_model]; simp [h]
 
 theorem translated_errreg_check_started_refuses (env : Nat → St → St) (s : TS) (h : s.st.phase = .notStarted)
-    (h2 : (env s.log.length s.st).phase = .notStarted) :
+    (h2 : (env s.log.length s.st).phase = .notStarted) (hr : s.cancelAt s.log.length = false) :
     (callFn (TrE.checkStarted (csPrims env)) : M TS PyExc Unit Unit) s = (s.await env .yield, .raise .invalidState) := by
-  rw [translated_errreg_check_started_is_model]; simp [h, h2, TS.await]
+  rw [translated_errreg_check_started_is_model]; simp [h, h2, hr, TS.await]
 
 /-- `shutdown()` of a started simulation IS the model's `shut` wake followed by `shutdownRaises`: up to
     `await self._simtask` exactly `abort(CancelledError('shutdown'))` is delivered (the model's `wakeStep … shut`:
     state and delivery log), and when the simulation task has ended -- whatever happened meanwhile -- the call
-    returns iff the recorded error is a cancellation, else re-raises the recorded error -/
-theorem translated_errreg_shutdown_is_model (env : Nat → St → St) (s : TS) (h : s.st.phase ≠ .notStarted) :
+    returns iff the recorded error is a cancellation, else re-raises the recorded error.
+    (`hr`: the caller is not cancelled while it awaits; see `translated_errreg_shutdown_cancelled_after_abort`) -/
+theorem translated_errreg_shutdown_is_model (env : Nat → St → St) (s : TS) (h : s.st.phase ≠ .notStarted)
+    (hr : s.cancelAt s.log.length = false) :
     TrE.shutdown (sdPrims env false) s =
       let s1 : TS := { s with st := (wakeStep s.st .shut).1, dels := s.dels ++ (wakeStep s.st .shut).2 }
       (s1.await env .simtask,
@@ -330,7 +409,7 @@ theorem translated_errreg_shutdown_is_model (env : Nat → St → St) (s : TS) (
        | some e => .raise (.err e)
        | none => .next ()) := by
   unfold TrE.shutdown
-  simp [h, translated_errreg_check_started_passes, bind_apply, get_apply, pure_apply, tryExcept_apply, abortP, awaitSim, wakeStep,
+  simp [h, hr, translated_errreg_check_started_passes, bind_apply, get_apply, pure_apply, tryExcept_apply, abortP, awaitSim, wakeStep,
     runForeverRaises, shutdownRaises]
   cases he : ((TS.await env Aw.simtask { s with st := s.st.abort (Err.cancelled 1), dels := s.dels ++ [Err.cancelled 1] }).st.error) with
   | none => simp
@@ -339,11 +418,27 @@ theorem translated_errreg_shutdown_is_model (env : Nat → St → St) (s : TS) (
 /-- shutdown() of a simulation that was never started (and does not start during the yield either):
     EdzedInvalidState, nothing is delivered -- the model's `shut` wake in phase `notStarted` changes nothing -/
 theorem translated_errreg_shutdown_not_started (env : Nat → St → St) (cur : Bool) (s : TS)
-    (h : s.st.phase = .notStarted) (h2 : (env s.log.length s.st).phase = .notStarted) :
+    (h : s.st.phase = .notStarted) (h2 : (env s.log.length s.st).phase = .notStarted)
+    (hr : s.cancelAt s.log.length = false) :
     TrE.shutdown (sdPrims env cur) s = (s.await env .yield, .raise .invalidState) ∧
     wakeStep s.st .shut = (s.st, []) := by
   unfold TrE.shutdown
-  simp [h, h2, translated_errreg_check_started_refuses, bind_apply, wakeStep]
+  simp [h, h2, hr, translated_errreg_check_started_refuses, bind_apply, wakeStep]
+
+/-- the caller of shutdown() is cancelled while it awaits the simulation task: `abort(CancelledError('shutdown'))`
+    was ALREADY delivered (the model's `shut` wake: state and delivery log), asyncio forwards the cancellation to the
+    awaited task (the model's `rawCancel`), and -- what the code does -- the `except CancelledError: pass` meant for
+    the simulation's own cancellation swallows the caller's, so shutdown() returns normally although the
+    simulation task may still be cleaning up -/
+theorem translated_errreg_shutdown_cancelled_after_abort (env : Nat → St → St) (s : TS) (h : s.st.phase ≠ .notStarted)
+    (hx : s.cancelAt s.log.length = true) :
+    (TrE.shutdown (sdPrims env false) s =
+      (let s1 : TS := { s with st := (wakeStep s.st .shut).1, dels := s.dels ++ (wakeStep s.st .shut).2 }
+       ({ s1.await env .simtask with st := (step (s1.await env .simtask).st .rawCancel).1 }, .next ()))) ∧
+    (TrE.shutdown (sdPrims env false) s).1.dels = s.dels ++ [.cancelled 1] := by
+  unfold TrE.shutdown
+  simp [h, hx, translated_errreg_check_started_passes, bind_apply, get_apply, pure_apply, tryExcept_apply, abortP, awaitSim,
+    wakeStep, callerCancelled, TS.await]
 
 /-- shutdown() called from the simulation task itself is refused BEFORE anything is delivered -/
 theorem translated_errreg_shutdown_refused_in_simtask (env : Nat → St → St) (s : TS) (h : s.st.phase ≠ .notStarted) :
@@ -354,7 +449,8 @@ theorem translated_errreg_shutdown_refused_in_simtask (env : Nat → St → St) 
 /-- `wait_init()` on a started simulation: AttributeError when `_init_done` does not exist (the helper task is
     created OUTSIDE the `try`, nothing is awaited); otherwise it waits once, cancels the helper task in any
     case, and raises EdzedInvalidState iff the simulation task is done or an error is recorded by then -/
-theorem translated_errreg_wait_init_is_model (env : Nat → St → St) (s : TS) (h : s.st.phase ≠ .notStarted) :
+theorem translated_errreg_wait_init_is_model (env : Nat → St → St) (s : TS) (h : s.st.phase ≠ .notStarted)
+    (hr : s.cancelAt s.log.length = false) :
     TrE.waitInit (wiPrims env) s =
       match s.initDone with
       | none => (s, .raise .attributeError)
@@ -365,20 +461,39 @@ theorem translated_errreg_wait_init_is_model (env : Nat → St → St) (s : TS) 
   cases hi : s.initDone with
   | none => simp [h, hi, translated_errreg_check_started_passes, bind_apply]
   | some b =>
-    simp [h, hi, translated_errreg_check_started_passes, bind_apply, get_apply, pure_apply, raise_apply, tryFinally_apply, TS.await]
+    simp [h, hi, hr, awaitM, translated_errreg_check_started_passes, bind_apply, get_apply, pure_apply, raise_apply, tryFinally_apply, TS.await]
     by_cases hd : (env s.log.length s.st).phase = .done
     · cases he : (env s.log.length s.st).error with
       | none => simp [hd, he, bind_apply, get_apply, pure_apply, raise_apply]
       | some e => cases hc : e.isCancel <;> simp [hd, he, hc, bind_apply, get_apply, pure_apply, raise_apply]
     · cases he : (env s.log.length s.st).error <;> simp [hd, he, bind_apply, get_apply, pure_apply, raise_apply]
 
+/-- the helper task created by wait_init() is cancelled on EVERY exit: for every environment and both outcomes of
+    the await (returned / the caller was cancelled while waiting), the helper is cancelled when wait_init() is left;
+    and when the await was cancelled, the CancelledError propagates, nothing else having happened to the state than
+    the environment's step and the helper's cancellation (the `finally:` -- two statements in sequence would skip
+    the cancellation exactly here, as edzed.run() cancels its supporting coroutines) -/
+theorem translated_errreg_wait_init_cancels_helper_on_every_exit (env : Nat → St → St) (s : TS) (b : Bool)
+    (h : s.st.phase ≠ .notStarted) (hi : s.initDone = some b) :
+    (TrE.waitInit (wiPrims env) s).1.waiter = some false ∧
+    (s.cancelAt s.log.length = true →
+      TrE.waitInit (wiPrims env) s = ({ s.await env .waitInit with waiter := some false }, .raise callerCancelled)) := by
+  cases hx : s.cancelAt s.log.length
+  · rw [translated_errreg_wait_init_is_model env s h hx, hi]
+    simp
+  · have : TrE.waitInit (wiPrims env) s = ({ s.await env .waitInit with waiter := some false }, .raise callerCancelled) := by
+      unfold TrE.waitInit
+      simp [h, hi, hx, awaitM, translated_errreg_check_started_passes, bind_apply, pure_apply, tryFinally_apply, TS.await]
+    rw [this]
+    simp
+
 /-- … hence, with the invariant `Stopped` (a finished simulation has an error): wait_init() returns normally
     iff the circuit is ready when the wait is over -/
 theorem translated_errreg_wait_init_returns_iff_ready (env : Nat → St → St) (s : TS) (b : Bool)
-    (h : s.st.phase ≠ .notStarted) (hi : s.initDone = some b)
+    (h : s.st.phase ≠ .notStarted) (hi : s.initDone = some b) (hr : s.cancelAt s.log.length = false)
     (hn : (env s.log.length s.st).phase ≠ .notStarted) (hs : Stopped (env s.log.length s.st)) :
     ((TrE.waitInit (wiPrims env) s).2 = .next ()) ↔ (env s.log.length s.st).ready = true := by
-  rw [translated_errreg_wait_init_is_model env s h, hi]
+  rw [translated_errreg_wait_init_is_model env s h hr, hi]
   simp only [TS.await, St.ready]
   by_cases hd : (env s.log.length s.st).phase = .done
   · have := hs (Or.inr (Or.inr hd))
@@ -463,19 +578,20 @@ theorem translated_errreg_run_collect_supporting (env : Nat → St → St) (n : 
 
 
 /-- the whole collection loop of run(): the simulation task first, then the supporting tasks in order -/
-theorem translated_errreg_run_collect_is_runRaises (env : Nat → St → St) (n : Nat) (s : TS) :
+theorem translated_errreg_run_collect_is_runRaises (env : Nat → St → St) (n : Nat) (s : TS)
+    (hr : s.cancelAt s.log.length = false) :
     TrE.run_for2 (runPrims env) (coros n) (((-1 : Int), Tk.sim) :: (List.range' 0 n).map fun (i : Nat) => ((i : Int), Tk.sup i)) none s =
       (s.await env .simtask, .next ((runRaises (s.await env .simtask).st n).map PyExc.err)) := by
   unfold TrE.run_for2
   have hc := fun re => translated_errreg_run_collect_supporting env n n 0 re (s.await env .simtask) (by omega)
   cases he : (s.await env .simtask).st.error with
   | none =>
-    simp [bind_apply, pure_apply, tryExcept_apply, awaitSim, runForeverRaises, he, hc, orElseSup, runRaises, shutdownRaises,
+    simp [bind_apply, pure_apply, tryExcept_apply, awaitSim, hr, runForeverRaises, he, hc, orElseSup, runRaises, shutdownRaises,
       firstSupError_eq, List.range_eq_range']
     congr 1; funext i; simp only [Function.comp_apply]; cases supFailure (TS.await env Aw.simtask s).st.supDone i <;> rfl
   | some e =>
     cases hk : e.isCancel <;>
-    simp [bind_apply, pure_apply, tryExcept_apply, awaitSim, runForeverRaises, he, hk, hc, orElseSup, runRaises, shutdownRaises,
+    simp [bind_apply, pure_apply, tryExcept_apply, awaitSim, hr, runForeverRaises, he, hk, hc, orElseSup, runRaises, shutdownRaises,
       firstSupError_eq, List.range_eq_range']
     congr 1; funext i; simp only [Function.comp_apply]; cases supFailure (TS.await env Aw.simtask s).st.supDone i <;> rfl
 
@@ -496,15 +612,20 @@ theorem translated_errreg_sig_handler_is_sigterm (sc : Bool) (s : TS) :
     task at position 0 is not (the model's `runWaiter`) --, after one yield `abort(CancelledError('shutdown'))`
     is delivered iff the simulation task is not done (the model's `runAbort`: state and delivery log), and what
     run() raises at the end is the model's `runRaises`: the simulation's error unless it is a cancellation,
-    else the error of the first failing supporting task in the order of the arguments, else nothing -/
-theorem translated_errreg_run_is_model (env : Nat → St → St) (n : Nat) (c : Bool) (s0 : St)
-    (hn : 0 < n) (h1 : (env 0 s0).phase ≠ .done) :
-    TrE.run (runPrims env) (coros n) c { st := s0 } =
+    else the error of the first failing supporting task in the order of the arguments, else nothing.
+    `cx`: which awaits of run() are interrupted by a cancellation of run()'s own task -- a cancellation inside
+    `asyncio.wait` (cx 1) is swallowed by the `except CancelledError: pass` around it, run() goes on to stop
+    everything exactly as if the wait had returned; the other awaits are taken as returning -/
+theorem translated_errreg_run_is_model (env : Nat → St → St) (cx : Nat → Bool) (n : Nat) (c : Bool) (s0 : St)
+    (hn : 0 < n) (h1 : (env 0 s0).phase ≠ .done)
+    (hx0 : cx 0 = false) (hx2 : cx 2 = false) (hx3 : cx 3 = false) :
+    TrE.run (runPrims env) (coros n) c { st := s0, cancelAt := cx } =
       ({ st := (runModel env s0).1
          dels := (runModel env s0).2
          log := [(.yield, c), (.wait, c), (.yield, c), (.simtask, false)]
          signo := c, saved := (if c then some false else none), handler := false, waited := true
-         cancelled := ((List.range n).filter fun i => !((env 1 (env 0 s0)).supDone.any (·.1 == i))).map Tk.sup },
+         cancelled := ((List.range n).filter fun i => !((env 1 (env 0 s0)).supDone.any (·.1 == i))).map Tk.sup
+         cancelAt := cx },
        outcomeOf (runRaises (runModel env s0).1 n)) := by
   have hlen : (coros n).length = n := by simp [coros]
   have hne : (coros n).isEmpty = false := by cases n with | zero => omega | succ n => simp [coros, List.replicate_succ]
@@ -513,16 +634,40 @@ theorem translated_errreg_run_is_model (env : Nat → St → St) (n : Nat) (c : 
     rw [TrE.enumFrom, List.range_eq_range']
     exact congrArg _ (enumFrom_sups n 0)
   unfold TrE.run
-  by_cases hd : (env 2 ((env 1 (env 0 s0)).addWake .runAbort)).phase = .done <;> cases c <;>
-  simp [withCtx_apply, bind_apply, tryFinally_apply, callFn, translated_errreg_sig_enter_is_model, translated_errreg_sig_exit_returns_false, translated_errreg_sig_exit_without_signal, hne, hlen, pure_apply, get_apply,
-    tryExcept_apply, taskDone, h1, hd, TS.await, translated_errreg_run_stop_loop_cancels_unfinished, henum, abortP, runModel, wakeStep, translated_errreg_run_collect_is_runRaises]
+  by_cases hd : (env 2 ((env 1 (env 0 s0)).addWake .runAbort)).phase = .done <;> cases c <;> cases hx1 : cx 1 <;>
+  simp [withCtx_apply, bind_apply, tryFinally_apply, callFn, translated_errreg_sig_enter_is_model,
+    translated_errreg_sig_exit_returns_false, translated_errreg_sig_exit_without_signal, hne, hlen, pure_apply, get_apply,
+    tryExcept_apply, taskDone, h1, hd, TS.await, awaitM, callerCancelled, hx0, hx1, hx2, hx3,
+    translated_errreg_run_stop_loop_cancels_unfinished, henum, abortP, runModel, wakeStep,
+    translated_errreg_run_collect_is_runRaises]
   all_goals (generalize runRaises _ n = r; cases r <;> rfl)
+
+/-- run()'s own task is cancelled at the yield after "stop everything": the CancelledError leaves run() through the
+    `with` (the SIGTERM handler is removed), `abort(CancelledError('shutdown'))` is NOT delivered and no task is
+    awaited -- what the code does; the supporting tasks were cancelled before -/
+theorem translated_errreg_run_cancelled_at_second_yield (env : Nat → St → St) (cx : Nat → Bool) (n : Nat) (c : Bool) (s0 : St)
+    (hn : 0 < n) (h1 : (env 0 s0).phase ≠ .done) (hx0 : cx 0 = false) (hx2 : cx 2 = true) :
+    TrE.run (runPrims env) (coros n) c { st := s0, cancelAt := cx } =
+      ({ st := env 2 (wakeStep (env 1 (env 0 s0)) .runWaiter).1
+         log := [(.yield, c), (.wait, c), (.yield, c)]
+         signo := c, saved := (if c then some false else none), handler := false, waited := true
+         cancelled := ((List.range n).filter fun i => !((env 1 (env 0 s0)).supDone.any (·.1 == i))).map Tk.sup
+         cancelAt := cx },
+       .raise callerCancelled) := by
+  have hlen : (coros n).length = n := by simp [coros]
+  have hne : (coros n).isEmpty = false := by cases n with | zero => omega | succ n => simp [coros, List.replicate_succ]
+  unfold TrE.run
+  cases c <;> cases hx1 : cx 1 <;>
+  simp [withCtx_apply, bind_apply, tryFinally_apply, callFn, translated_errreg_sig_enter_is_model,
+    translated_errreg_sig_exit_returns_false, translated_errreg_sig_exit_without_signal, hne, hlen, pure_apply, get_apply,
+    tryExcept_apply, taskDone, h1, TS.await, awaitM, callerCancelled, hx0, hx1, hx2,
+    translated_errreg_run_stop_loop_cancels_unfinished, wakeStep]
 
 /-- run() never cancels the simulation task directly (it would abort the clean-up) -/
 theorem translated_errreg_run_skips_simtask (env : Nat → St → St) (n : Nat) (c : Bool) (s0 : St)
     (hn : 0 < n) (h1 : (env 0 s0).phase ≠ .done) :
     Tk.sim ∉ (TrE.run (runPrims env) (coros n) c { st := s0 }).1.cancelled := by
-  rw [translated_errreg_run_is_model env n c s0 hn h1]
+  rw [translated_errreg_run_is_model env (fun _ => false) n c s0 hn h1 rfl rfl rfl]
   simp
 
 /-- run() without supporting coroutines: run_forever is awaited in the caller's own task, a cancellation is a
@@ -538,11 +683,11 @@ theorem translated_errreg_run_without_coroutines (env : Nat → St → St) (c : 
   | none =>
     cases c <;>
     simp [withCtx_apply, bind_apply, tryFinally_apply, callFn, translated_errreg_sig_enter_is_model, translated_errreg_sig_exit_returns_false, translated_errreg_sig_exit_without_signal, pure_apply, get_apply,
-      tryExcept_apply, TS.await, awaitSim, runForeverRaises, he, ret_apply, runRaises, shutdownRaises, firstSupError]
+      tryExcept_apply, TS.await, awaitSim, awaitM, runForeverRaises, he, ret_apply, runRaises, shutdownRaises, firstSupError]
   | some e =>
     cases hk : e.isCancel <;> cases c <;>
     simp [withCtx_apply, bind_apply, tryFinally_apply, callFn, translated_errreg_sig_enter_is_model, translated_errreg_sig_exit_returns_false, translated_errreg_sig_exit_without_signal, pure_apply, get_apply,
-      tryExcept_apply, TS.await, awaitSim, runForeverRaises, he, hk, ret_apply, raise_apply, runRaises, shutdownRaises, firstSupError]
+      tryExcept_apply, TS.await, awaitSim, awaitM, runForeverRaises, he, hk, ret_apply, raise_apply, runRaises, shutdownRaises, firstSupError]
 
 /-- the simulation task is already finished after the first yield: its error is re-raised (a cancellation:
     RuntimeError), no supporting task is ever created, the SIGTERM handler is removed -/
@@ -559,11 +704,11 @@ theorem translated_errreg_run_simtask_dead_early (env : Nat → St → St) (n : 
   | none =>
     cases c <;>
     simp [withCtx_apply, bind_apply, tryFinally_apply, callFn, translated_errreg_sig_enter_is_model, translated_errreg_sig_exit_returns_false, translated_errreg_sig_exit_without_signal, pure_apply, get_apply, hne,
-      tryExcept_apply, TS.await, taskDone, h1, runForeverRaises, he, raise_apply, shutdownRaises]
+      tryExcept_apply, TS.await, awaitM, taskDone, h1, runForeverRaises, he, raise_apply, shutdownRaises]
   | some e =>
     cases hk : e.isCancel <;> cases c <;>
     simp [withCtx_apply, bind_apply, tryFinally_apply, callFn, translated_errreg_sig_enter_is_model, translated_errreg_sig_exit_returns_false, translated_errreg_sig_exit_without_signal, pure_apply, get_apply, hne,
-      tryExcept_apply, TS.await, taskDone, h1, runForeverRaises, he, hk, raise_apply, shutdownRaises]
+      tryExcept_apply, TS.await, awaitM, taskDone, h1, runForeverRaises, he, hk, raise_apply, shutdownRaises]
 
 /-- abort() before the start: the translated `run_forever` still registers the task (`_simtask`), raises the
     recorded error INSIDE its try block (so that it is the task's own error and `shutdown()` re-raises it), starts
@@ -597,12 +742,12 @@ and never replaces a recorded error.
 theorem translated_errreg_run_forever_is_model_partial (sc : RfScript) (s0 : St)
     (hp : s0.phase = .notStarted) (he : s0.error = none) (hi : sc.envInit = id)
     (hs : ∀ s, (sc.envSim s).phase = s.phase)
-    (ht : sc.initErr = none → (thrownAt (sc.envSim (step s0 (.start none)).1)).2.isSome = true)
+    (ht : sc.initErr = none → s0.earlyFail = false → (thrownAt (sc.envSim (step s0 (.start none)).1)).2.isSome = true)
     (hy : ∀ s, (s.error.isSome → (sc.envYield s).error = s.error) ∧ (sc.envYield s).phase = s.phase)
     (hz : ∀ s, (s.error.isSome → (sc.envStop s).error = s.error) ∧ (sc.envStop s).phase = s.phase) :
     TrL.runForever (erfPrims sc) { st := s0 } =
-      ({ st := rfModel sc s0, started := [0], startOk := true, initDone := some sc.initErr.isNone,
-         simulated := sc.initErr.isNone },
+      ({ st := rfModel sc s0, started := [0], startOk := true, initDone := some (sc.initErr.isNone && !s0.earlyFail),
+         simulated := (sc.initErr.isNone && !s0.earlyFail) },
        match runForeverRaises (rfModel sc s0) with
        | some e => .raise (.err e)
        | none => .raise .typeError) ∧
@@ -624,19 +769,30 @@ theorem translated_errreg_run_forever_is_model_partial (sc : RfScript) (s0 : St)
     simp [hp, he, hi, hm, hc, St.caught, runForeverRaises, bind_apply, get_apply, pure_apply, raise_apply, tryExcept_apply,
       TrL.runForever_for1, hye, hyp, hze, hzp, hwe, hwp, hfe]
   | none =>
-    have ht' := ht hie
-    rw [start_ok s0 hp he] at ht'
+    cases hef : s0.earlyFail with
+    | true =>
+      -- the block whose step failed early is found uninitialised by `_init_sblocks_sync_2`
+      unfold rfModel TrL.runForever
+      simp only [hie]
+      rw [start_early_fail s0 hp he hef]
+      by_cases hm : (sc.envYield ({ s0 with phase := .tryBlock, error := some .notInit, runWaiting := s0.runMode, earlyFail := true } : St).leaveTry).mustCancel = true <;>
+      by_cases hc : (sc.envYield ({ s0 with phase := .tryBlock, error := some .notInit, runWaiting := s0.runMode, earlyFail := true } : St).leaveTry).slowCleanup = true <;>
+      simp [hp, he, hi, hie, hef, hm, hc, St.caught, runForeverRaises, bind_apply, get_apply, pure_apply, raise_apply, tryExcept_apply,
+        TrL.runForever_for1, hye, hyp, hze, hzp, hwe, hwp, hfe]
+    | false =>
+    have ht' := ht hie hef
+    rw [start_ok s0 hp he hef] at ht'
     unfold rfModel TrL.runForever
     simp only [hie]
-    rw [start_ok s0 hp he]
+    rw [start_ok s0 hp he hef]
     have hS : ({ s0 with phase := .tryBlock, runWaiting := s0.runMode } : St) =
-        { s0 with phase := .tryBlock, error := none, runWaiting := s0.runMode } := by rw [← he]
+        { s0 with phase := .tryBlock, error := none, runWaiting := s0.runMode, earlyFail := false } := by rw [← he, ← hef]
     rw [hS] at ht' ⊢
-    have hph : (sc.envSim { s0 with phase := .tryBlock, error := none, runWaiting := s0.runMode }).phase = .tryBlock := by
+    have hph : (sc.envSim { s0 with phase := .tryBlock, error := none, runWaiting := s0.runMode, earlyFail := false }).phase = .tryBlock := by
       rw [hs]
-    simp only [show (({ s0 with phase := .tryBlock, error := none, runWaiting := s0.runMode } : St).phase == Phase.tryBlock) = true from rfl,
+    simp only [show (({ s0 with phase := .tryBlock, error := none, runWaiting := s0.runMode, earlyFail := false } : St).phase == Phase.tryBlock) = true from rfl,
       if_true, wakeStep_sim_try_eq _ hph]
-    obtain ⟨T, hT⟩ : ∃ T, T = thrownAt (sc.envSim { s0 with phase := .tryBlock, error := none, runWaiting := s0.runMode }) := ⟨_, rfl⟩
+    obtain ⟨T, hT⟩ : ∃ T, T = thrownAt (sc.envSim { s0 with phase := .tryBlock, error := none, runWaiting := s0.runMode, earlyFail := false }) := ⟨_, rfl⟩
     rw [← hT] at ht' ⊢
     obtain ⟨T1, T2⟩ := T
     cases T2 with
@@ -648,13 +804,13 @@ theorem translated_errreg_run_forever_is_model_partial (sc : RfScript) (s0 : St)
         by_cases hm : (sc.envYield ({ T1 with error := some e } : St).leaveTry).mustCancel = true <;>
         by_cases hc : (sc.envYield ({ T1 with error := some e } : St).leaveTry).slowCleanup = true <;>
         cases hk : e.isCancel <;>
-        simp [hp, he, hi, hT', hte, hm, hc, hk, St.caught, runForeverRaises, bind_apply, get_apply, pure_apply, raise_apply,
+        simp [hp, he, hi, hef, hT', hte, hm, hc, hk, St.caught, runForeverRaises, bind_apply, get_apply, pure_apply, raise_apply,
           tryExcept_apply, TrL.runForever_for1, hye, hyp, hze, hzp, hwe, hwp, hfe]
       | some e1 =>
         by_cases hm : (sc.envYield T1.leaveTry).mustCancel = true <;>
         by_cases hc : (sc.envYield T1.leaveTry).slowCleanup = true <;>
         cases hk : e.isCancel <;>
-        simp [hp, he, hi, hT', hte, hm, hc, hk, St.caught, runForeverRaises, bind_apply, get_apply, pure_apply, raise_apply,
+        simp [hp, he, hi, hef, hT', hte, hm, hc, hk, St.caught, runForeverRaises, bind_apply, get_apply, pure_apply, raise_apply,
           tryExcept_apply, TrL.runForever_for1, hye, hyp, hze, hzp, hwe, hwp, hfe]
 
 /-- a second `run_forever()` is refused before anything else happens: the model's `start` outside `notStarted` -/
@@ -669,8 +825,9 @@ theorem translated_errreg_run_forever_restart_refused (sc : RfScript) (s : TS) (
     cancellation was swallowed by a failing init task): the simulation is NOT entered, `_init_done` stays
     unset, the recorded error is raised after the clean-up -- a simulation with an error never runs -/
 theorem translated_errreg_run_forever_no_simulation_with_error (sc : RfScript) (s0 : St) (e1 : Err)
-    (hp : s0.phase = .notStarted) (he : s0.error = none) (hie : sc.initErr = none)
-    (hi : (sc.envInit { s0 with phase := .tryBlock, error := none, runWaiting := s0.runMode }).error = some e1)
+    (hp : s0.phase = .notStarted) (he : s0.error = none) (hie : sc.initErr = none) (hef : s0.earlyFail = false)
+    (hi : (sc.envInit { s0 with phase := .tryBlock, error := none, runWaiting := s0.runMode, earlyFail := false }).error = some e1)
+    (hif : (sc.envInit { s0 with phase := .tryBlock, error := none, runWaiting := s0.runMode, earlyFail := false }).earlyFail = false)
     (hy : ∀ s, (s.error.isSome → (sc.envYield s).error = s.error) ∧ (sc.envYield s).phase = s.phase)
     (hz : ∀ s, (s.error.isSome → (sc.envStop s).error = s.error) ∧ (sc.envStop s).phase = s.phase) :
     ∃ s', TrL.runForever (erfPrims sc) { st := s0 } = (s', .raise (.err e1)) ∧
@@ -683,9 +840,9 @@ theorem translated_errreg_run_forever_no_simulation_with_error (sc : RfScript) (
   have hwp := fun s h => (wake_sleep0 s h).2
   have hfe := fun s h => finish_cleanup s h
   unfold TrL.runForever
-  by_cases hm : (sc.envYield (sc.envInit { s0 with phase := .tryBlock, error := none, runWaiting := s0.runMode }).leaveTry).mustCancel = true <;>
-  by_cases hc : (sc.envYield (sc.envInit { s0 with phase := .tryBlock, error := none, runWaiting := s0.runMode }).leaveTry).slowCleanup = true <;>
-  simp [hp, he, hie, hi, hm, hc, bind_apply, get_apply, pure_apply, raise_apply,
+  by_cases hm : (sc.envYield (sc.envInit { s0 with phase := .tryBlock, error := none, runWaiting := s0.runMode, earlyFail := false }).leaveTry).mustCancel = true <;>
+  by_cases hc : (sc.envYield (sc.envInit { s0 with phase := .tryBlock, error := none, runWaiting := s0.runMode, earlyFail := false }).leaveTry).slowCleanup = true <;>
+  simp [hp, he, hie, hef, hi, hif, hm, hc, bind_apply, get_apply, pure_apply, raise_apply,
           tryExcept_apply, TrL.runForever_for1, hye, hyp, hze, hzp, hwe, hwp, hfe]
 
 /-- the model's `waitInitReply`, case "an error was recorded before the start" (the recorded observation): the
@@ -698,7 +855,7 @@ theorem translated_errreg_wait_init_after_abort_before_start (sc : RfScript) (en
       TrE.waitInit (wiPrims env) s' = (s', .raise .attributeError) ∧
       waitInitReply s0 sc.initErr = .attributeError := by
   refine ⟨_, translated_errreg_run_forever_abort_before_start sc s0 e0 hp he hy, rfl, ?_, by simp [waitInitReply, he]⟩
-  rw [translated_errreg_wait_init_is_model]
+  rw [translated_errreg_wait_init_is_model (hr := rfl)]
   have hph : (sc.envYield (step s0 (.start sc.initErr)).1).phase = .sleep0 := by
     rw [(hy _).2, start_pre_error s0 _ e0 hp he]; simp
   have := (wake_sleep0 _ hph).2
@@ -720,7 +877,7 @@ theorem translated_errreg_wait_init_after_failed_start (sc : RfScript) (env : Na
   have hd := rfModel_done sc s0 hp he hs (by simp [hie]) (fun s => (hy s).2) (fun s => (hz s).2)
   refine ⟨_, rfl, ?_, ?_, by simp [waitInitReply, he, hie]⟩
   · rw [hm.1]; simp [hie]
-  · rw [hm.1, translated_errreg_wait_init_is_model _ _ (by simp [hd])]
+  · rw [hm.1, translated_errreg_wait_init_is_model _ _ (by simp [hd]) rfl]
     have hsome : (rfModel sc s0).error.isSome = true := hm.2
     have := henv 0 (rfModel sc s0) hsome
     simp [hie, TS.await, this]
@@ -729,10 +886,11 @@ theorem translated_errreg_wait_init_after_failed_start (sc : RfScript) (env : Na
     is recorded and the task is running when the wait is over -/
 theorem translated_errreg_wait_init_of_running_simulation (env : Nat → St → St) (s : TS) (b : Bool)
     (h : s.st.phase ≠ .notStarted) (hi : s.initDone = some b)
-    (he : (env s.log.length s.st).error = none) (hd : (env s.log.length s.st).phase ≠ .done) (s0 : St) (h0 : s0.error = none) :
+    (he : (env s.log.length s.st).error = none) (hd : (env s.log.length s.st).phase ≠ .done) (s0 : St) (h0 : s0.error = none)
+    (h0f : s0.earlyFail = false) (hr : s.cancelAt s.log.length = false) :
     (TrE.waitInit (wiPrims env) s).2 = .next () ∧ waitInitReply s0 none = .ok := by
-  rw [translated_errreg_wait_init_is_model env s h, hi]
-  simp [TS.await, he, hd, waitInitReply, h0]
+  rw [translated_errreg_wait_init_is_model env s h hr, hi]
+  simp [TS.await, he, hd, waitInitReply, h0, h0f]
 
 /-- non-vacuity of the hypotheses of `translated_errreg_run_forever_is_model_partial` and
     `translated_errreg_run_is_model`: a cancellation requested while the circuit is simulated ends run_forever with
@@ -743,7 +901,7 @@ example :
     (TrL.runForever (erfPrims sc) { st := {} }).2 = .raise (.err (.cancelled 0)) ∧
     (rfModel sc {}).phase = .done ∧ (rfModel sc {}).error = some (.cancelled 0) := by
   intro sc
-  have h := translated_errreg_run_forever_is_model_partial sc {} rfl rfl rfl (fun _ => rfl) (fun _ => rfl)
+  have h := translated_errreg_run_forever_is_model_partial sc {} rfl rfl rfl (fun _ => rfl) (fun _ _ => rfl)
     (fun _ => ⟨fun _ => rfl, rfl⟩) (fun _ => ⟨fun _ => rfl, rfl⟩)
   have hm : rfModel sc {} = { phase := .done, error := some (.cancelled 0), wake := [.sim] } := by rfl
   rw [h.1, hm]
@@ -760,12 +918,94 @@ example :
     (TrE.run (runPrims exampleEnv) (coros 2) true { st := { runMode := true } }).2 = .raise (.err (.exc 7)) ∧
     (TrE.run (runPrims exampleEnv) (coros 2) true { st := { runMode := true } }).1.dels = [.cancelled 1] ∧
     (TrE.run (runPrims exampleEnv) (coros 2) true { st := { runMode := true } }).1.st.error = some (.cancelled 1) := by
-  have h := translated_errreg_run_is_model exampleEnv 2 true { runMode := true } (by decide) (by decide +kernel)
+  have h := translated_errreg_run_is_model exampleEnv (fun _ => false) 2 true { runMode := true } (by decide) (by decide +kernel) rfl rfl rfl
   have h1 : runRaises (runModel exampleEnv { runMode := true }).1 2 = some (.exc 7) := by decide +kernel
   have h2 : (runModel exampleEnv { runMode := true }).2 = [.cancelled 1] := by decide +kernel
   have h3 : (runModel exampleEnv { runMode := true }).1.error = some (.cancelled 1) := by decide +kernel
   rw [h]
   exact ⟨by simp only [h1]; rfl, h2, h3⟩
+
+/-! #### `SBlock.event` (Gen/TranslatedDispatch.lean, translated for C11) and `init_sblock` (Gen/TranslatedInitSb.lean,
+     translated for C05) instantiated with the error register -/
+
+/-- the translated `SBlock.event` makes the model's classification: whatever the fault of the delivery -- an
+    exception of any family raised by the handler's own code, wrong parameters, an unknown type, an unknown event sent
+    by the handler -- `abort(<wrapped error>)` is called iff `Fault.fatal` (i.e. unless the `except EdzedUnknownEvent:
+    raise` clause or the one-level traceback applies), BEFORE the exception reaches the caller; the exception is
+    re-raised in every case and `_event_active` is reset -/
+theorem translated_errreg_event_classification (flt : Fault) (id fuel : Nat) (s : EvSt) (ha : s.active = false)
+    (hm : s.marker < 0 ∨ 2 ≤ s.marker) (b : Bool) :
+    TrD.event (evPrims flt id b) (fuel + 1) (faultEtype flt) () s =
+      ({ s with st := if flt.fatal then s.st.abort (.wrapped id) else s.st
+                dels := if flt.fatal then s.dels ++ [.wrapped id] else s.dels
+                active := false },
+       .raise (.raised flt.seen.1 flt.seen.2)) := by
+  have hg : ¬ ((0 : Int) ≤ s.marker ∧ s.marker < (2 : Int)) := by omega
+  unfold TrD.event TrD.event_loop1
+  cases flt with
+  | inHandler f =>
+    cases f <;>
+      simp [ha, hg, faultEtype, Fault.fatal, fatalSeen, Fault.seen, bind_apply, get_apply, pure_apply, raise_apply, ret_apply,
+        tryExcept_apply, tryFinally_apply]
+  | wrongParams =>
+    simp [ha, hg, faultEtype, Fault.fatal, fatalSeen, Fault.seen, bind_apply, get_apply, pure_apply, raise_apply, ret_apply,
+      tryExcept_apply, tryFinally_apply]
+  | unknownType =>
+    simp [ha, hg, faultEtype, Fault.fatal, fatalSeen, Fault.seen, bind_apply, get_apply, pure_apply, raise_apply, ret_apply,
+      tryExcept_apply, tryFinally_apply]
+  | nested =>
+    simp [ha, hg, faultEtype, Fault.fatal, fatalSeen, Fault.seen, bind_apply, get_apply, pure_apply, raise_apply, ret_apply,
+      tryExcept_apply, tryFinally_apply]
+
+/-- … hence the model's `handlerErr` IS what the translated `SBlock.event` does to the error register for a
+    handler that raises an exception of family `f`: same state, same deliveries -/
+theorem translated_errreg_event_handler_error_is_model (f : Family) (id fuel : Nat) (s : EvSt) (ha : s.active = false)
+    (hm : s.marker < 0 ∨ 2 ≤ s.marker) (hr : s.st.ready = true) (b : Bool) :
+    (TrD.event (evPrims (.inHandler f) id b) (fuel + 1) .known () s).1.st = (step s.st (.handlerErr id f)).1 ∧
+    (TrD.event (evPrims (.inHandler f) id b) (fuel + 1) .known () s).1.dels = s.dels ++ (step s.st (.handlerErr id f)).2.dels := by
+  have h := translated_errreg_event_classification (.inHandler f) id fuel s ha hm b
+  simp only [faultEtype] at h
+  rw [h]
+  cases hf : (Fault.inHandler f).fatal <;> simp [step, hr, hf]
+
+/-- **a failed initialisation step is never attempted again**: when `init_regular()` raises, the translated
+    `init_sblock` leaves the step marker NEGATIVE (the except clause does not touch it) and re-raises; and with a
+    negative marker every later `init_sblock` call -- from the synchronous passes or from an event -- does nothing -/
+theorem translated_errreg_failed_init_step_never_attempted_again (s : EvSt) (full : Bool)
+    (h : s.marker = 1 ∨ (s.marker = 0 ∧ full = true)) :
+    TrI.init_sblock (isPrims true) () full s =
+      ({ s with marker := -2, initCalls := s.initCalls + 1 }, .raise .initFailed) ∧
+    (∀ (t : EvSt) (fails full' : Bool), t.marker < 0 → TrI.init_sblock (isPrims fails) () full' t = (t, .next ())) := by
+  constructor
+  · unfold TrI.init_sblock
+    rcases h with h | ⟨h, rfl⟩ <;>
+      simp [h, bind_apply, get_apply, pure_apply, raise_apply, tryExcept_apply]
+  · intro t fails full' ht
+    have h0 : t.marker ≠ 0 := by omega
+    have h1 : t.marker ≠ 1 := by omega
+    unfold TrI.init_sblock
+    simp [h0, h1, bind_apply, get_apply, pure_apply, tryExcept_apply]
+
+/-- the model's `earlyInitFail`: an event reaches a block whose initialisation is not complete (marker 0 or 1) and
+    its `init_regular()` raises: the exception leaves the translated `SBlock.event` BEFORE the handler's try block --
+    nothing is handed to abort() (the register is untouched), the marker stays negative, `_event_active` is reset;
+    the start-up then finds the block uninitialised (the model's `start` with `earlyFail`) -/
+theorem translated_errreg_early_init_failure_reaches_caller_only (flt : Fault) (id fuel : Nat) (s : EvSt)
+    (ha : s.active = false) (hm : s.marker = 0 ∨ s.marker = 1) :
+    TrD.event (evPrims flt id true) (fuel + 1) (faultEtype flt) () s =
+      ({ s with marker := -2, initCalls := s.initCalls + 1, active := false }, .raise .initFailed) ∧
+    (∀ i, (step s.st (.earlyInitFail i)).1.error = s.st.error ∧ (step s.st (.earlyInitFail i)).2.dels = []) := by
+  constructor
+  · have hg : ((0 : Int) ≤ s.marker ∧ s.marker < (2 : Int)) := by omega
+    have hi := (translated_errreg_failed_init_step_never_attempted_again { s with active := false } true
+      (by rcases hm with h | h <;> simp [h])).1
+    unfold TrD.event TrD.event_loop1
+    cases flt <;>
+      simp [ha, hg, hi, faultEtype, bind_apply, get_apply, pure_apply, raise_apply, ret_apply, withCtx_apply,
+        tryExcept_apply, tryFinally_apply]
+  · intro i
+    simp only [step]
+    split <;> simp
 
 end ErrRegTie
 
